@@ -483,7 +483,7 @@ func IndexGitRepo(opts Options) (bool, error) {
 // The returned bool indicates whether the index was updated, or would be
 // updated when DryRun is set. This can be informative if doing incremental
 // indexing.
-func indexGitRepo(opts Options, config gitIndexConfig) (bool, error) {
+func indexGitRepo(opts Options, config gitIndexConfig) (_ bool, err error) {
 	prepareDeltaBuild := prepareDeltaBuild
 	if config.prepareDeltaBuild != nil {
 		prepareDeltaBuild = config.prepareDeltaBuild
@@ -621,8 +621,13 @@ func indexGitRepo(opts Options, config gitIndexConfig) (bool, error) {
 	builder.CheckMemoryUsage()
 
 	// we don't need to check error, since we either already have an error, or
-	// we returning the first call to builder.Finish.
-	defer builder.Finish() // nolint:errcheck
+	// we returning the first call to builder.Finish. If we already have an
+	// error, not every document was added: Finish must only clean up and must
+	// not install the partial index over the existing one.
+	defer func() {
+		builder.MarkFailed(err)
+		builder.Finish() // nolint:errcheck
+	}()
 
 	for _, f := range changedOrRemovedFiles {
 		builder.MarkFileAsChangedOrRemoved(f)
